@@ -542,7 +542,7 @@ func TestVerifC03ServerLoop(t *testing.T) {
 			}
 		}
 		steps := 60 + rng.Intn(60)
-		for s := 0; s < steps && alive; s++ {
+		for s := 0; s < steps && alive && !r.Dead(loopEntry); s++ {
 			cs := cases[rng.Intn(len(cases))]
 			from := strings.Repeat("f", cs[1])
 			lio.setLimit(true, int64(cs[2]))
@@ -607,7 +607,7 @@ func TestVerifC03ServerRun(t *testing.T) {
 			<-io.entered // back in ReceiveMessage: the datagram has been parsed and fed (or skipped)
 		}
 		steps := 150 + rng.Intn(150)
-		for s := 0; s < steps; s++ {
+		for s := 0; s < steps && !r.Dead(entry); s++ {
 			var d []byte
 			switch rng.Intn(6) {
 			case 0:
